@@ -67,7 +67,6 @@ AllSyms ==
     \cup {<<"mutsrc", k, v>> : k \in Keys, v \in Vals \cup {Absent}}
     \cup {<<"occupy", kind, 0>> : kind \in {0, 1}}
 SymsOf(op) == {s \in AllSyms : s[1] = op}
-Refusals == Outcomes \ {"ok"}
 
 G_set_ok  == \E s \in SymsOf("set") : Do(s, "ok") /\ UNCHANGED hist
 G_set_ref == \E s \in SymsOf("set"), o \in Refusals : Do(s, o) /\ UNCHANGED hist
@@ -134,10 +133,10 @@ HandleSyms == {s \in AllSyms : s[1] \in {"set", "get", "del", "in", "len", "iter
 
 \* an operation that is refused (any outcome but "ok") changes nothing
 RefusedNoEffect == [][(pvars' # pvars) => ~(\E s \in AllSyms, o \in Refusals : Do(s, o))]_mcvars
-\* on a closed dictionary every operation except close raises ValueError (TypeError only for a non-bytes value)
+\* on a closed dictionary every operation except close raises ValueError (a non-bytes value may be refused for being that)
 ClosedRaises == st = "closed" =>
                   \A s \in HandleSyms, o \in Outcomes :
-                      ENABLED Do(s, o) => (o = "ValueError" \/ (o = "TypeError" /\ s[1] = "set" /\ s[3] = NB))
+                      ENABLED Do(s, o) => (o = "ValueError" \/ (o # "ok" /\ s[1] = "set" /\ s[3] = NB))
 \* ... and some outcome is always defined (no operation is left without an allowed outcome)
 Total == Handle => \A s \in HandleSyms \cup SymsOf("close") : \E o \in Outcomes : ENABLED Do(s, o)
 \* a non-bytes value is never accepted
